@@ -4,4 +4,4 @@
 From Coq Require Import ExtrOcamlBasic.
 From GF Require Import Drivers.D05 Drivers.D03 Drivers.D06 Drivers.D04 Drivers.D10 Drivers.D13 Drivers.D14 Drivers.D15 Drivers.D16 Drivers.D19 Drivers.D17 Drivers.D08 Drivers.D11.
 Extraction Language OCaml.
-Extraction "gfext.ml" c05_gen c05_run c03_gen c03_run c06_gen c06_run c04_gen c04_run c10_gen c10_run c09_gen c09_run c13_gen c13_run c14_gen c14_run c16_gen c16_run c16_run_pinned c19_gen c19_run c15_gen c15_run c17_gen c17_run c08t_run c11_gen c02_run.
+Extraction "gfext.ml" c05_gen c05_run c03_gen c03_run c06_gen c06_run c04_gen c04_run c10_gen c10_run c09_gen c09_run c13_gen c13_run c14_gen c14_run c16_gen c16_run c16_run_pinned c19_gen c19_run c15_gen c15_run c17_gen c17_run c08t_run c11_gen c02_run c07p_run.
